@@ -620,11 +620,6 @@ pub fn observe_ext(toks: &[&str], scratch: &Path, fresh: bool) -> String {
     let post_tok = tree_token(&sb);
     let mut extra = String::new();
     if fresh {
-        // C09 only: glyphs the containers report (`iter()`) that have no file name - a successful save cannot write them
-        let nofile: usize = font.layers.iter().map(|l| l.iter().filter(|g| l.get_path(g.name()).is_none()).count()).sum();
-        extra.push_str(&format!(" NOFILE={}", nofile));
-    }
-    if fresh {
         // the same font once more into a fresh path of another sandbox: byte-for-byte comparison of the two trees
         let fsb = scratch.join("fresh/o/m");
         rm_rf(&scratch.join("fresh"));
@@ -683,6 +678,11 @@ pub fn observe_ext(toks: &[&str], scratch: &Path, fresh: bool) -> String {
             extra.push_str(&format!(" RESAVE={}", res));
             rm_rf(&rs);
         }
+    }
+    if fresh {
+        // C09 only: glyphs the containers report (`iter()`) that have no file name - a successful save cannot write them
+        let nofile: usize = font.layers.iter().map(|l| l.iter().filter(|g| l.get_path(g.name()).is_none()).count()).sum();
+        extra.push_str(&format!(" NOFILE={}", nofile));
     }
     rm_rf(&sb);
     if load {
